@@ -733,16 +733,18 @@ class CDSInterval(AbstractFeatureInterval):
         cleaned_rel_starts = []
         cleaned_rel_ends = []
         loc = self.chromosome_location
+        exons_rel_end = 0
         # zip_longest is used here to ensure that the two iterators are always actually in sync
         for exon, frame in zip_longest(self._exon_iter(False), self._frame_iter(False)):
 
             if exon is None or frame is None:
                 raise MismatchedFrameException("Frame iterator is not in sync with exon iterator")
 
-            start_to_rel = loc.parent_to_relative_pos(exon.start)
-            end_to_rel_inclusive = loc.parent_to_relative_pos(exon.end - 1)
-            rel_start = min(start_to_rel, end_to_rel_inclusive)
-            rel_end = max(start_to_rel, end_to_rel_inclusive) + 1
+            # exons are iterated in the order that defines the relative coordinates of ``loc``, so the relative
+            # interval of each exon follows from the lengths (looking the exon's end points up with
+            # parent_to_relative_pos is ambiguous where CDS blocks overlap, the model of a -1 frameshift)
+            rel_start = exons_rel_end
+            rel_end = exons_rel_end = exons_rel_end + len(exon)
             if next_frame != frame:
                 rel_start += frame.value
                 # remove trailing codon from previous block
